@@ -128,8 +128,13 @@ func topAllocSite() string {
 	return ""
 }
 
+// budgetFactor: DESIGN.md planned 64 bytes per input byte; calibration on valid messages showed that decoding bytes
+// that HAVE arrived legitimately costs up to ~600 bytes per byte in this code base (every dtn endpoint ID of ~10 bytes
+// compiles a regular expression, ~6 KB of garbage: a valid 10 KB announcement packet allocates 6 MB, 216 small bundles
+// on one MTCP connection 13 MB).  1024 is the next power of two; what the property forbids (allocation sized by a
+// declared length: 2^31 and up) is orders of magnitude beyond either factor.
 const (
-	budgetFactor = 64
+	budgetFactor = 1024
 	budgetConst  = 8 << 20
 	restartAbove = 256 << 20
 )
